@@ -4,20 +4,13 @@ import PyElf.Gen.Tables
 import PyElf.Gen.Structs
 import PyElf.Gen.Pure
 import PyElf.Spec.DwarfStructs
+import PyElf.Model.Env
 import PyElf.Driver.C16
 import PyElf.Driver.Tie
 open Lean
 namespace PyElf
 
-/-- last entry with the given value wins (Python: `dict((v, k) for k, v in mapping.items())`) -/
-def decodeIn (t : List (String × Int)) (v : Int) : Option String :=
-  t.foldl (fun acc (k, x) => if x = v then some k else acc) none
-
-def genEnumDecode (tid : String) (v : Int) : Option String :=
-  match Gen.tables.find? (·.1 == tid) with
-  | some (_, t, _) => decodeIn t v
-  | none => none
-
+open PyElf.Model in
 def handleCon (req : Json) : Except String Json := do
   -- {"k":"con","bundle":"elf"|"dwarf"|"ehabi","cfg":[...],"name":..., "hex":..., "pos":n}
   let kind ← jStr req "bundle"
@@ -53,7 +46,7 @@ def handleCon (req : Json) : Except String Json := do
         | none => throw "no such ehabi bundle"
     | _, _ => throw "bad cfg"
   let some c := con | throw s!"no struct {name}"
-  let env : Env := { enumDecode := genEnumDecode, forms := forms }
+  let env : Env := { enumDecode := Model.genEnumDecode, forms := forms }
   let r := structParse env c data pos
   return Json.mkObj [("model", resJson (fun (v, p) => Json.mkObj [("v", v.toJson), ("pos", jN p)]) r)]
 
